@@ -21,6 +21,7 @@ import (
 	"syscall"
 
 	"github.com/postalsys/muti-metroo/internal/filetransfer"
+	"github.com/postalsys/muti-metroo/verifharness/fsutil"
 	"github.com/postalsys/muti-metroo/verifharness/vh"
 )
 
@@ -376,7 +377,9 @@ func witnesses() []kase {
 
 // ---------------------------------------------------------------------------
 
-func coqStr(s string) string { return vh.CoqString(s) }
+var in = fsutil.NewInterner()
+
+func coqStr(s string) string { return in.S(s) }
 
 func coqInit(nodes []initNode) string {
 	items := make([]string, len(nodes))
@@ -503,11 +506,14 @@ func main() {
 			c.Fail("untar-panic", "UntarDirectory panicked: "+pan, k)
 		}
 		monitor(c, k, before, after)
-		coq = append(coq, fmt.Sprintf("UCase %s %s %s %s", coqInit(append(skeleton(), k.Init...)), coqEntries(k.Entries), vh.CoqBool(xerr != nil), coqSnapshot(after)))
+		coq = append(coq, fmt.Sprintf("UCase (skel ++ %s) %s %s %s", coqInit(k.Init), coqEntries(k.Entries), vh.CoqBool(xerr != nil), coqSnapshot(after)))
 	}
 
 	var sb strings.Builder
 	sb.WriteString("From Coq Require Import List NArith String.\nFrom MM Require Import Model.Fs Model.Untar.\nImport ListNotations.\nLocal Open Scope string_scope.\n")
+	skel := coqInit(skeleton())
+	sb.WriteString(in.Defs())
+	sb.WriteString("Definition skel : list inode_spec := " + skel + ".\n")
 	const chunk = 100
 	var names []string
 	for i := 0; i < len(coq); i += chunk {
